@@ -8,6 +8,7 @@ CONSTANTS
   Lens = {57, 116}
   Cmds = {1}
   MaxMsgs = 2
+  Cuts = {0}
   MaxPkts = 3
   Export = TRUE
 SPECIFICATION Spec
